@@ -80,7 +80,7 @@ func menu(genesisCoinbase common.Uint256) (*menuT, interfaces.Transaction) {
 	fo := []*common2.Output{
 		sk.Out(addrA, 1000), sk.Out(addrA, 1000), sk.Out(addrB, 1000), sk.Out(addrC, 1000),
 		sk.Out(addrA, 500), sk.Out(addrA, 1000), sk.Out(addrA, 1000), sk.Out(addrB, 0),
-		sk.Out(addrA, 1000), sk.Out(addrB, 1000), sk.Out(addrC, 1000),
+		sk.Out(addrA, 1000), sk.Out(addrB, 1000), sk.Out(addrC, 1000), sk.Out(addrA, 1000),
 	}
 	m.fund = sk.Transfer(0xf0, ins(genesisCoinbase, 0), fo)
 	f := m.fund.Hash()
@@ -89,11 +89,11 @@ func menu(genesisCoinbase common.Uint256) (*menuT, interfaces.Transaction) {
 	one := func(t interfaces.Transaction) []interfaces.Transaction { return []interfaces.Transaction{t} }
 
 	add(&op{name: "empty", miner: addrC})
-	t1 := sk.Transfer(1, ins(f, 0), outs(sk.Out(addrA, 400), sk.Out(addrB, 600)))
+	t1 := sk.Transfer(1, ins(f, 0), outs(sk.Out(addrA, 400), sk.Out(addrB, 500), sk.Out(addrA, 100)))
 	add(&op{name: "split", txs: one(t1), miner: addrA})
 	t2 := sk.Transfer(2, ins(f, 1), outs(sk.Out(addrB, 0), sk.Out(addrC, 1000)))
 	add(&op{name: "zero", txs: one(t2), miner: addrB})
-	t3 := sk.Transfer(3, ins(t1.Hash(), 0, 1), outs(sk.Out(addrC, 1000)))
+	t3 := sk.Transfer(3, ins(t1.Hash(), 0, 1), outs(sk.Out(addrC, 900)))
 	add(&op{name: "join", txs: one(t3), needs: []string{"split"}, miner: addrC})
 	t4 := sk.Transfer(4, ins(f, 2, 3), outs(sk.Out(addrA, 2000)))
 	add(&op{name: "fanin", txs: one(t4), miner: addrA})
@@ -118,6 +118,10 @@ func menu(genesisCoinbase common.Uint256) (*menuT, interfaces.Transaction) {
 		sk.Transfer(20, ins(f, 8), outs(sk.Out(addrB, 1000))),
 		sk.Transfer(21, ins(f, 9), outs(sk.Out(addrC, 500), sk.Out(addrA, 500))),
 		sk.Transfer(22, ins(f, 10), outs(sk.Out(addrA, 1000)))}, miner: addrB})
+
+	// one address spends outputs created at two different heights in one transaction (its
+	// share of split and a funding output) while other outputs of it stay at both heights
+	add(&op{name: "twoheights", txs: one(sk.Transfer(23, append(ins(t1.Hash(), 2), ins(f, 11)...), outs(sk.Out(addrC, 1100)))), needs: []string{"split"}, miner: addrC})
 
 	m.addrs = []common.Uint168{addrA, addrB, addrC}
 	m.txids = []common.Uint256{genesisCoinbase, f, fundCb.Hash()}
